@@ -388,6 +388,12 @@ class Executor:
             if m.group(2) == "MAX":
                 return z3.BitVecVal((1 << (w - 1)) - 1 if sg else (1 << w) - 1, w)
             return z3.BitVecVal(-(1 << (w - 1)) if sg else 0, w)
+        m = re.fullmatch(r"(?:[a-z_][a-z0-9_]*::)*([A-Z][A-Z0-9_]*)", t)
+        if m:
+            from . import parse as _P
+            c = _P.SOURCE_CONSTS.get(m.group(1))
+            if c is not None:
+                return z3.BitVecVal(c[1], INT_TY[c[0]][0])
         raise Unsupported("constant %r" % t[:120])
 
     def promoted(self, name):
@@ -825,7 +831,7 @@ class Executor:
         if target is not None:
             self.calls_inlined.add(target.name)
             return self.run(target, argv, st, depth + 1)
-        raise Unsupported("callee outside the encoded subset: %s (called from %s)" % (c, f.name))
+        raise Unsupported("callee outside the encoded subset: %s (called from %s)" % (c[:200], f.name if f is not None else "a function value"))
 
     def call_closure(self, st, clo, argvals, depth=0):
         """apply a closure / fn item value to arguments (Fn::call semantics: self by reference)"""
